@@ -48,9 +48,9 @@ def setup() -> None:
         raise RuntimeError("puresnmp imported from %s, expected %s" % (got, src))
 
 
-def set_debug_logging(on: bool) -> None:
-    """Emulate an application that configured DEBUG (or left WARNING) for the puresnmp loggers; records are only counted."""
+def set_log_level(name: str) -> None:
+    """Emulate an application that configured DEBUG / WARNING / CRITICAL for the puresnmp loggers; records are only counted."""
     setup()
-    level = logging.DEBUG if on else logging.WARNING
+    level = getattr(logging, name)
     for name in ("puresnmp", "puresnmp_plugins"):
         logging.getLogger(name).setLevel(level)
